@@ -3,6 +3,7 @@ import os, sys
 sys.path.insert(0, os.path.dirname(os.path.abspath(__file__)))
 import _common as C
 B = 'feel-evaluator/src/builders.rs'
+V0 = 'feel/src/values.rs'
 D = 'feel/src/temporal/date.rs'
 P = ['C09', 'C01']
 A = ['C09', 'C01', 'C05']
@@ -143,6 +144,42 @@ UNIT = {
          'rewrites': [('R3',)],
          'body_prefix': 'broadcast use axiom_num_trichotomy, axiom_str_order;\nproof { axiom_string_ord(); }',
          'ensures': [('open_end_is_strict', 'tri_result(r, in_range_spec(*left, *right))')]},
+        {'kind': 'item', 'src': V0, 'path': 'const VALUE_TRUE'},
+        {'kind': 'item', 'src': V0, 'path': 'const VALUE_FALSE'},
+        {'kind': 'fn', 'src': D, 'path': 'impl FeelDate::fn before', 'key': 'compare::FeelDate::before', 'props': P, 'auto_props': A, 'loops': 0, 'ret': 'r',
+         'ensures': [('calendar_order', 'r == lt3(ord3(Value::Date(*self), Value::Date(*other)))')]},
+        {'kind': 'fn', 'src': D, 'path': 'impl FeelDate::fn before_or_equal', 'key': 'compare::FeelDate::before_or_equal', 'props': P, 'auto_props': A, 'loops': 0, 'ret': 'r',
+         'ensures': [('calendar_order', 'r == le3(ord3(Value::Date(*self), Value::Date(*other)))')]},
+        {'kind': 'fn', 'src': D, 'path': 'impl FeelDate::fn after', 'key': 'compare::FeelDate::after', 'props': P, 'auto_props': A, 'loops': 0, 'ret': 'r',
+         'ensures': [('calendar_order', 'r == gt3(ord3(Value::Date(*self), Value::Date(*other)))')]},
+        {'kind': 'fn', 'src': D, 'path': 'impl FeelDate::fn after_or_equal', 'key': 'compare::FeelDate::after_or_equal', 'props': P, 'auto_props': A, 'loops': 0, 'ret': 'r',
+         'ensures': [('calendar_order', 'r == ge3(ord3(Value::Date(*self), Value::Date(*other)))')]},
+        {'kind': 'fn', 'src': B, 'path': 'fn eval_in_equal', 'key': 'compare::eval_in_equal', 'props': P + ['C03'], 'auto_props': A + ['C03'], 'loops': 0, 'ret': 'r',
+         'sig_rewrite': [(r'^(\s*)fn ', r'\1pub fn ')],
+         'ensures': [('true_iff_equal', 'r == Value::Boolean(veq(*left, *right))')]},
+        {'kind': 'fn', 'src': B, 'path': 'fn eval_in_unary_less', 'key': 'compare::eval_in_unary_less', 'props': P + ['C03'], 'auto_props': A + ['C03'], 'loops': 0, 'ret': 'r',
+         'sig_rewrite': [(r'^(\s*)fn ', r'\1pub fn ')], 'rewrites': [('R3',)],
+         'body_prefix': 'broadcast use axiom_num_trichotomy, axiom_str_order;\nproof { axiom_string_ord(); }',
+         'ensures': [('unary_test', 'tri_result(r, lt3(ord3u(*left, *right)))')]},
+        {'kind': 'fn', 'src': B, 'path': 'fn eval_in_unary_less_or_equal', 'key': 'compare::eval_in_unary_less_or_equal', 'props': P + ['C03'], 'auto_props': A + ['C03'], 'loops': 0, 'ret': 'r',
+         'sig_rewrite': [(r'^(\s*)fn ', r'\1pub fn ')], 'rewrites': [('R3',)],
+         'body_prefix': 'broadcast use axiom_num_trichotomy, axiom_str_order;\nproof { axiom_string_ord(); }',
+         'ensures': [('unary_test', 'tri_result(r, le3(ord3u(*left, *right)))')]},
+        {'kind': 'fn', 'src': B, 'path': 'fn eval_in_unary_greater', 'key': 'compare::eval_in_unary_greater', 'props': P + ['C03'], 'auto_props': A + ['C03'], 'loops': 0, 'ret': 'r',
+         'sig_rewrite': [(r'^(\s*)fn ', r'\1pub fn ')], 'rewrites': [('R3',)],
+         'body_prefix': 'broadcast use axiom_num_trichotomy, axiom_str_order;\nproof { axiom_string_ord(); }',
+         'ensures': [('unary_test', 'tri_result(r, gt3(ord3u(*left, *right)))')]},
+        {'kind': 'fn', 'src': B, 'path': 'fn eval_in_unary_greater_or_equal', 'key': 'compare::eval_in_unary_greater_or_equal', 'props': P + ['C03'], 'auto_props': A + ['C03'], 'loops': 0, 'ret': 'r',
+         'sig_rewrite': [(r'^(\s*)fn ', r'\1pub fn ')], 'rewrites': [('R3',)],
+         'body_prefix': 'broadcast use axiom_num_trichotomy, axiom_str_order;\nproof { axiom_string_ord(); }',
+         'ensures': [('unary_test', 'tri_result(r, ge3(ord3u(*left, *right)))')]},
+        {'kind': 'fn', 'src': B, 'path': 'fn eval_in_negated_list', 'key': 'compare::eval_in_negated_list', 'props': P + ['C03'], 'auto_props': A + ['C03'], 'loops': 1, 'ret': 'r',
+         'sig_rewrite': [(r'^(\s*)fn ', r'\1pub fn ')], 'rewrites': [('R3',)],
+         'ensures': [('negation_of_disjunction', '(forall |i: int| 0 <= i < items@.len() ==> neg_item_ok(#[trigger] items@[i])) ==> r == Value::Boolean(!(exists |i: int| 0 <= i < items@.len() && neg_item_accepts(*left, #[trigger] items@[i])))')],
+         'loop_specs': {0: {'iter_name': 'it', 'invariant': [
+             ('seq', 'it.seq() =~= items@.map_values(|v: Value| &v)'),
+             ('none_so_far', 'forall |j: int| 0 <= j < it.index@ ==> neg_item_ok(#[trigger] items@[j]) && !neg_item_accepts(*left, items@[j])')],
+             'body_prefix': 'proof { assert(*item == items@[it.index@ as int]); }'}}},
     ],
 }
 
